@@ -108,6 +108,10 @@ struct reb_simulationarchive_blob16 {
 void reb_read_simulationarchive_from_stream_with_messages(struct reb_simulationarchive* sa, struct reb_simulationarchive* sa_index, enum reb_simulation_binary_error_codes* warnings){
     // Assumes sa->inf is set to an open stream
     const int debug = 0;
+    // The caller might pass uninitialized memory. Make sure the error paths leave pointers that can be freed.
+    sa->t = NULL;
+    sa->offset = NULL;
+    sa->nblobs = 0;
     if (sa->inf==NULL){
         *warnings |= REB_SIMULATION_BINARY_ERROR_NOFILE;
         return;
